@@ -179,20 +179,34 @@ class Rec:
 
 
 class Closure:
-    """A lambda, or a def whose body is a single `return <expr>`."""
+    """A lambda, a def whose body is a single `return <expr>`, or any other
+    plain-signature def (its statements are then run by `Interp`)."""
 
-    def __init__(self, node, env: Dict[str, object]):
+    def __init__(self, node, env: Dict[str, object], drop_first: bool = False):
         self.node = node
         self.env = env
+        self.drop_first = drop_first   # bound method: the receiver is not an argument
         self.body = node.body if isinstance(node, ast.Lambda) else simple_def_body(node)
+        self.stmts = None
+        if self.body is None and isinstance(node, ast.FunctionDef) and plain_signature(node):
+            self.stmts = [s for s in node.body if not (isinstance(s, ast.Expr) and isinstance(s.value, ast.Constant))]
+
+    def params(self) -> List[str]:
+        names = [x.arg for x in self.node.args.args]
+        return names[1:] if self.drop_first else names
+
+
+def plain_signature(node) -> bool:
+    """`def f(a, b)`: positional parameters only, no defaults, no decorators."""
+    if not isinstance(node, ast.FunctionDef) or node.decorator_list:
+        return False
+    a = node.args
+    return not (a.vararg or a.kwarg or a.kwonlyargs or a.defaults or a.posonlyargs)
 
 
 def simple_def_body(node):
     """The returned expression of `def f(a, b): [docstring]; return <expr>`, else None."""
-    if not isinstance(node, ast.FunctionDef) or node.decorator_list:
-        return None
-    a = node.args
-    if a.vararg or a.kwarg or a.kwonlyargs or a.defaults or a.posonlyargs:
+    if not plain_signature(node):
         return None
     body = [s for s in node.body if not (isinstance(s, ast.Expr) and isinstance(s.value, ast.Constant))]
     if len(body) == 1 and isinstance(body[0], ast.Return) and body[0].value is not None:
@@ -203,13 +217,14 @@ def simple_def_body(node):
 class Evaluator:
     """Evaluates the expression subset {constants, names, attribute reads of
     records, + - *, comparisons, and/or/not, if-expressions, tuples/lists,
-    comprehensions over concrete lists, len/bool/int/any/all/sum/sorted/
-    reversed/list/tuple, lambdas} with Python's own semantics on concrete
+    comprehensions over concrete lists, len/bool/int/any/all/sum/min/max/
+    sorted/reversed/list/tuple, lambdas, plain defs of the analysed tree} with Python's own semantics on concrete
     values.  Anything else evaluates to UNK (never guessed)."""
 
-    def __init__(self, where: str, call_hook=None):
+    def __init__(self, where: str, call_hook=None, resolver=None):
         self.where = where
         self.call_hook = call_hook  # (call, env) -> value | NotImplemented
+        self.resolver = resolver    # (Name/Attribute not bound in env) -> Closure | None  (module-level defs, self.<method>)
 
     def ev(self, e, env):
         m = getattr(self, '_' + type(e).__name__, None)
@@ -220,8 +235,16 @@ class Evaluator:
     def _Constant(self, e, env):
         return e.value
 
+    def _resolve(self, e):
+        if self.resolver is None:
+            return UNK
+        r = self.resolver(e)
+        return r if isinstance(r, Closure) else UNK
+
     def _Name(self, e, env):
-        return env.get(e.id, UNK)
+        if e.id in env:
+            return env[e.id]
+        return self._resolve(e)
 
     def _Attribute(self, e, env):
         v = self.ev(e.value, env)
@@ -229,6 +252,8 @@ class Evaluator:
             if e.attr in v.attrs:
                 return v.attrs[e.attr]
             return UNK
+        if v is UNK:
+            return self._resolve(e)
         return UNK
 
     def _UnaryOp(self, e, env):
@@ -333,14 +358,20 @@ class Evaluator:
         return Closure(e, dict(env))
 
     def call_closure(self, c: Closure, args):
-        params = [x.arg for x in c.node.args.args]
+        params = c.params()
         if len(params) != len(args):
             return UNK
         env = dict(c.env)
         env.update(zip(params, args))
-        if c.body is None:
+        if c.body is not None:
+            return self.ev(c.body, env)
+        if c.stmts is None:
             return UNK
-        return self.ev(c.body, env)
+        try:
+            kind, val = Interp(self, self.where).block(c.stmts, env)
+        except UnknownIdiom:
+            return UNK
+        return val if kind == 'return' and val is not None else UNK
 
     def _comp(self, e, env, elt):
         out = []
@@ -386,12 +417,19 @@ class Evaluator:
             r = self.call_hook(e, env)
             if r is not NotImplemented:
                 return r
+        fv = None
+        if isinstance(e.func, ast.Name) and e.func.id in env:
+            fv = env[e.func.id]
+        elif isinstance(e.func, (ast.Name, ast.Attribute)):
+            fv = self._resolve(e.func)
+        if isinstance(fv, Closure):
+            if e.keywords or any(isinstance(a, ast.Starred) for a in e.args):
+                return UNK
+            args = [self.ev(a, env) for a in e.args]
+            if any(a is UNK for a in args):
+                return UNK
+            return self.call_closure(fv, args)
         if not isinstance(e.func, ast.Name) or e.func.id in env:
-            if isinstance(e.func, ast.Name) and isinstance(env.get(e.func.id), Closure) and not e.keywords:
-                args = [self.ev(a, env) for a in e.args]
-                if any(a is UNK for a in args):
-                    return UNK
-                return self.call_closure(env[e.func.id], args)
             return UNK
         fn = e.func.id
         if any(isinstance(a, ast.Starred) for a in e.args):
@@ -419,6 +457,10 @@ class Evaluator:
                 return any(vals) if fn == 'any' else all(vals)
             if fn == 'sum' and len(args) == 1 and seq(args[0]) and not kw and all(isinstance(x, (int, bool)) for x in args[0]):
                 return sum(args[0])
+            if fn in ('min', 'max') and not kw and len(args) >= 2 and all(type(a) in (int, bool) for a in args):
+                return min(args) if fn == 'min' else max(args)
+            if fn in ('min', 'max') and not kw and len(args) == 1 and seq(args[0]) and args[0] and all(type(a) in (int, bool) for a in args[0]):
+                return min(args[0]) if fn == 'min' else max(args[0])
             if fn in ('list', 'tuple') and len(args) == 1 and seq(args[0]) and not kw:
                 return list(args[0]) if fn == 'list' else tuple(args[0])
             if fn == 'reversed' and len(args) == 1 and seq(args[0]) and not kw:
@@ -455,50 +497,122 @@ truth = _truth
 # node kinds derived from CompiledRouterNode.__init__
 # ---------------------------------------------------------------------------
 
-def derive_node_kinds(project: Project, cfg: CFG) -> Set[Tuple[bool, bool]]:
-    """All (is_var, is_complex) pairs with which the constructor can finish
-    (path-insensitive walk of its CFG; the two flags must be assigned
-    constants)."""
-    init = ('unset', 'unset')
-    seen = {(cfg.entry, init)}
-    stack = [(cfg.entry, init)]
-    out: Set[Tuple[object, object]] = set()
-    while stack:
-        nid, st = stack.pop()
-        if nid == cfg.exit:
-            out.add(st)
-            continue
-        n = cfg.node(nid)
-        new = st
-        if n.kind == 'stmt' and isinstance(n.ast, (ast.Assign, ast.AnnAssign, ast.AugAssign)):
-            targets = n.ast.targets if isinstance(n.ast, ast.Assign) else [n.ast.target]
-            for t in targets:
-                for sub in ([t] if not isinstance(t, (ast.Tuple, ast.List)) else t.elts):
-                    if isinstance(sub, ast.Attribute) and isinstance(sub.value, ast.Name) and sub.value.id == 'self' \
-                            and sub.attr in ('is_var', 'is_complex'):
-                        val = getattr(n.ast, 'value', None)
-                        if isinstance(n.ast, ast.AugAssign) or not (isinstance(val, ast.Constant) and isinstance(val.value, bool)):
-                            raise UnknownIdiom('%s: %s is not assigned a boolean constant (%s)' % (cfg.func.qual, sub.attr, short(n.ast, 80)))
-                        new = (val.value, new[1]) if sub.attr == 'is_var' else (new[0], val.value)
-        for (y, l) in cfg.succ[nid]:
-            if l == 'exc':
+FIELD_COUNTS = (0, 1, 2, 3)   # number of field expressions in a segment; 3 stands for "three or more"
+
+# (number of field expressions, is_var, is_complex) -> kind name
+KIND_NAMES = {
+    (0, False, False): 'literal',   # b
+    (1, True, False): 'single',     # {x}           one field, whole segment
+    (1, True, True): 'affix',       # {x}.json      one field with literal text around it ("complex", num_fields == 1)
+    (2, True, True): 'multi',       # {x}-{y}       two fields
+    (3, True, True): 'multi3',      # {x}-{y}-{z}   three or more
+}
+COMPLEX_KINDS = ('affix', 'multi', 'multi3')
+
+
+def _matches_local(cfg: CFG) -> str:
+    """The constructor's local holding the field expressions found in the
+    segment: `<name> = list(<pattern>.finditer(...))` / `<pattern>.findall(...)`."""
+    names = set()
+    for n in cfg.live_nodes():
+        a = n.ast
+        if n.kind == 'stmt' and isinstance(a, (ast.Assign, ast.AnnAssign)) and a.value is not None:
+            targets = a.targets if isinstance(a, ast.Assign) else [a.target]
+            v = a.value
+            if isinstance(v, ast.Call) and isinstance(v.func, ast.Name) and v.func.id in ('list', 'tuple') and len(v.args) == 1:
+                v = v.args[0]
+            if isinstance(v, ast.Call) and isinstance(v.func, ast.Attribute) and v.func.attr in ('finditer', 'findall'):
+                for t in targets:
+                    if isinstance(t, ast.Name):
+                        names.add(t.id)
+    if len(names) != 1:
+        raise UnknownIdiom('%s: expected one local bound to the field expressions of the segment '
+                           '(<pattern>.finditer/findall), found %s' % (cfg.func.qual, sorted(names)))
+    return names.pop()
+
+
+def derive_node_kinds(project: Project, cfg: CFG) -> Set[Tuple[int, object, object, object]]:
+    """All (n, is_var, is_complex, num_fields) with which the constructor can
+    finish for a segment holding n field expressions, n in FIELD_COUNTS.
+
+    The constructor's CFG is walked once per n with the list of matches bound
+    to n placeholder objects: tests and asserts that the mini-evaluator can
+    decide on that binding (`not matches`, `len(matches) == 1`,
+    `self.is_complex`) select / prune paths, every other test keeps both
+    branches.  The three attributes must be assigned boolean constants /
+    evaluable integers."""
+    mname = _matches_local(cfg)
+    ev = Evaluator(cfg.func.qual)
+    out: Set[Tuple[int, object, object, object]] = set()
+    FLAGS = ('is_var', 'is_complex', 'num_fields')
+    for n_fields in FIELD_COUNTS:
+        init = ('unset', 'unset', 'unset')
+        seen = {(cfg.entry, init)}
+        stack = [(cfg.entry, init)]
+        while stack:
+            nid, st = stack.pop()
+            if nid == cfg.exit:
+                out.add((n_fields,) + st)
                 continue
-            k = (y, new)
-            if k not in seen:
-                seen.add(k)
-                stack.append(k)
-    if any('unset' in st for st in out):
+            n = cfg.node(nid)
+            env = {mname: [Rec('field#%d' % i) for i in range(n_fields)],
+                   'self': Rec('self', **{k: v for k, v in zip(FLAGS, st) if v != 'unset'})}
+            new = st
+            only = None    # restrict the successors to this edge label
+            if n.kind == 'stmt' and isinstance(n.ast, (ast.Assign, ast.AnnAssign, ast.AugAssign)):
+                targets = n.ast.targets if isinstance(n.ast, ast.Assign) else [n.ast.target]
+                for t in targets:
+                    for sub in ([t] if not isinstance(t, (ast.Tuple, ast.List)) else t.elts):
+                        if isinstance(sub, ast.Attribute) and isinstance(sub.value, ast.Name) and sub.value.id == 'self' \
+                                and sub.attr in FLAGS:
+                            val = getattr(n.ast, 'value', None)
+                            if isinstance(n.ast, ast.AugAssign) or sub is not t or val is None:
+                                raise UnknownIdiom('%s: %s is not plainly assigned (%s)' % (cfg.func.qual, sub.attr, short(n.ast, 80)))
+                            v = ev.ev(val, env)
+                            if sub.attr == 'num_fields':
+                                if type(v) is not int:
+                                    raise UnknownIdiom('%s: num_fields is not assigned an evaluable integer (%s)' % (
+                                        cfg.func.qual, short(n.ast, 80)))
+                            elif not (isinstance(val, ast.Constant) and isinstance(val.value, bool)):
+                                raise UnknownIdiom('%s: %s is not assigned a boolean constant (%s)' % (cfg.func.qual, sub.attr, short(n.ast, 80)))
+                            i = FLAGS.index(sub.attr)
+                            new = new[:i] + (v,) + new[i + 1:]
+            elif n.kind == 'stmt' and isinstance(n.ast, ast.Assert):
+                v = ev.ev(n.ast.test, env)
+                if v is not UNK and not _truth(v):
+                    continue   # the constructor fails here for this n: no node of this shape exists
+            elif n.kind == 'test':
+                v = ev.ev(n.ast, env)
+                if v is not UNK:
+                    only = 'T' if _truth(v) else 'F'
+            for (y, l) in cfg.succ[nid]:
+                if l == 'exc' or (only is not None and l in ('T', 'F') and l != only):
+                    continue
+                k = (y, new)
+                if k not in seen:
+                    seen.add(k)
+                    stack.append(k)
+    if any('unset' in st[1:3] for st in out):
         raise UnknownIdiom('%s: is_var/is_complex not assigned on every path' % cfg.func.qual)
-    return out  # type: ignore[return-value]
+    return out
 
 
 def kind_records(kinds) -> Dict[str, Rec]:
-    """literal / multi / single records from the derived flag pairs."""
-    want = {(False, False): 'literal', (True, True): 'multi', (True, False): 'single'}
-    if set(kinds) != set(want):
-        raise UnknownIdiom('CompiledRouterNode.__init__ produces node kinds %s; the rules know literal=(F,F), '
-                           'multi-field=(T,T), single-field=(T,F)' % sorted(kinds))
-    return {name: Rec(name, is_var=v, is_complex=c) for (v, c), name in want.items()}
+    """literal / single / affix / multi / multi3 records from the derived tuples."""
+    shapes = {(n, v, c) for (n, v, c, _nf) in kinds}
+    if shapes != set(KIND_NAMES):
+        raise UnknownIdiom('CompiledRouterNode.__init__ produces node kinds (fields, is_var, is_complex) %s; the rules know %s'
+                           % (sorted(shapes), sorted(KIND_NAMES)))
+    out = {}
+    for (n, v, c, nf) in sorted(kinds, key=str):
+        name = KIND_NAMES[(n, v, c)]
+        if name in out:
+            raise UnknownIdiom('CompiledRouterNode.__init__: num_fields of a %s node is not unique' % name)
+        attrs = {'is_var': v, 'is_complex': c}
+        if nf != 'unset':
+            attrs['num_fields'] = nf
+        out[name] = Rec(name, **attrs)
+    return out
 
 
 # ---------------------------------------------------------------------------
@@ -574,7 +688,7 @@ class Interp:
                 env[nm] = UNK
             return ('fall', None)
         if isinstance(s, (ast.FunctionDef, ast.AsyncFunctionDef, ast.ClassDef)):
-            env[s.name] = Closure(s, env) if simple_def_body(s) is not None else UNK
+            env[s.name] = Closure(s, env) if plain_signature(s) else UNK
             return ('fall', None)
         if isinstance(s, ast.Raise):
             return ('raise', None)
@@ -925,3 +1039,897 @@ class CxModel:
         (subscript store or mutating method)."""
         pat = re.compile(r'(?<![\w.])' + re.escape(name) + r'\s*(\[[^\]]*\]\s*=(?!=)|\.\s*(update|setdefault|pop|popitem|clear|__setitem__)\s*\()')
         return [c for c in self.classes.values() if any(pat.search(ln) for ln in c.code_lines())]
+
+
+# ---------------------------------------------------------------------------
+# R9: which characters a piece of text rendered into the generated source can
+# contain (template-derived text vs ints / generated names / constants)
+# ---------------------------------------------------------------------------
+
+NL, QUOTE, PUNCT = 'a line break', 'a quote or backslash', 'arbitrary punctuation'
+RAW_HAZARDS = frozenset([NL, QUOTE, PUNCT])
+# what a position of the generated source cannot take
+FORBIDDEN = {
+    'quoted': frozenset([NL, QUOTE]),        # '...{}...' : ends the literal / the line
+    'comment': frozenset([NL]),              # # ... {}  : the rest of the text becomes code
+    'bare': RAW_HAZARDS,                     # code position: only ints, generated names, developer-written constants
+}
+
+
+class Txt:
+    """Upper bound on what a rendered value can contain: `haz` (hazard classes
+    it may contain), `notes` (where the text comes from, for the witness),
+    `deps` (validation steps the bound relies on; each is its own obligation),
+    `is_int`."""
+
+    __slots__ = ('haz', 'notes', 'deps', 'is_int')
+
+    def __init__(self, haz=(), notes=(), deps=(), is_int=False):
+        self.haz = frozenset(haz)
+        self.notes = tuple(notes)
+        self.deps = frozenset(deps)
+        self.is_int = is_int
+
+    def __or__(self, o: 'Txt') -> 'Txt':
+        notes = self.notes + tuple(n for n in o.notes if n not in self.notes)
+        return Txt(self.haz | o.haz, notes, self.deps | o.deps, False)
+
+    def __repr__(self):
+        return 'Txt(%s; %s)' % (sorted(self.haz) or 'harmless', '; '.join(self.notes))
+
+
+INT_TXT = Txt(notes=('an int',), is_int=True)
+REPR_TXT = Txt(notes=('rendered through repr()',))
+
+
+class Seg:
+    """A template segment (or an escaped copy of it): text outside field
+    expressions + field expressions verbatim."""
+
+    def __init__(self, note: str):
+        self.note = note
+
+
+def const_txt(s: str, what='a constant') -> Txt:
+    haz = set()
+    if '\n' in s or '\r' in s:
+        haz.add(NL)
+    if any(c in s for c in '\'"\\'):
+        haz.add(QUOTE)
+    return Txt(haz, ('%s %r' % (what, s),) if haz else ())
+
+
+def join_txt(parts) -> Optional[Txt]:
+    out = Txt()
+    for t in parts:
+        if t is None:
+            return None
+        out = out | t
+    return out
+
+
+def placeholder_positions(tmpl: str, where: str) -> List[Tuple[int, Optional[str], str, str]]:
+    """(argument index, conversion, position, line skeleton) of every
+    placeholder of a str.format template that renders generated source;
+    position is 'quoted' / 'comment' / 'bare'."""
+    try:
+        parsed = list(string.Formatter().parse(tmpl))
+    except ValueError as e:
+        raise UnknownIdiom('%s: bad format template %r (%s)' % (where, tmpl, e))
+    state = 'code'
+    auto = 0
+    skeleton: List[str] = []
+    found = []
+    for lit, field, spec, conv in parsed:
+        i = 0
+        while i < len(lit):
+            ch = lit[i]
+            if ch in '\n\r':
+                state = 'code'
+            elif state == 'code':
+                if ch in '\'"':
+                    state = ch
+                elif ch == '#':
+                    state = 'comment'
+            elif state in ('\'', '"'):
+                if ch == '\\':
+                    i += 1
+                elif ch == state:
+                    state = 'code'
+            i += 1
+        skeleton.append(lit)
+        if field is None:
+            continue
+        if spec:
+            raise UnknownIdiom('%s: format spec in template %r' % (where, tmpl))
+        if field == '':
+            idx = auto
+            auto += 1
+        elif field.isdigit():
+            idx = int(field)
+        else:
+            raise UnknownIdiom('%s: named/complex placeholder {%s} in %r' % (where, field, tmpl))
+        skeleton.append('{%d%s}' % (idx, '!' + conv if conv else ''))
+        lineno = ''.join(skeleton).count('\n')
+        found.append((idx, conv, {'code': 'bare', 'comment': 'comment'}.get(state, 'quoted'), lineno))
+    lines = ''.join(skeleton).split('\n')
+    return [(idx, conv, pos, lines[ln].strip()) for (idx, conv, pos, ln) in found]
+
+
+def replacement_parts(repl: str) -> Tuple[str, List[object]]:
+    """(literal text, group references) of an re.sub replacement template."""
+    lit: List[str] = []
+    refs: List[object] = []
+    i = 0
+    while i < len(repl):
+        ch = repl[i]
+        if ch != '\\' or i + 1 >= len(repl):
+            lit.append(ch)
+            i += 1
+            continue
+        nx = repl[i + 1]
+        if nx == 'g':
+            m = re.match(r'g<([^>]*)>', repl[i + 1:])
+            if not m:
+                raise ValueError(repl)
+            g = m.group(1)
+            refs.append(int(g) if g.isdigit() else g)
+            i += 1 + m.end()
+        elif nx.isdigit():
+            m = re.match(r'\d{1,2}', repl[i + 1:])
+            refs.append(int(m.group(0)))
+            i += 1 + m.end()
+        else:
+            lit.append({'n': '\n', 'r': '\r', 't': '\t', '\\': '\\'}.get(nx, nx))
+            i += 2
+    return ''.join(lit), refs
+
+
+# Calls that receive template text inside the validator without restricting its characters (DESIGN 1.3 item 5:
+# one symbol, one reason; the entry only applies while the callee still hands the text to eval()).
+VALIDATION_LOOKALIKES = {
+    ROUTER + '._instantiate_converter': 'evaluates the text as a Python argument list with eval(): line breaks, quotes and parentheses '
+                                        'are all legal inside it, so a successful instantiation restricts none of them',
+}
+
+
+PROBE_CHARS = {NL: '\n\r', QUOTE: '\'"\\', PUNCT: ' \t#(){}:.,-=/'}
+
+
+def probe_regex(pattern: str, method: str) -> Tuple[bool, Dict[str, List[str]]]:
+    """Runs the (constant) validator pattern on a fixed probe set: does it
+    accept a plain identifier, and which hazard classes does it let through
+    (sample strings)?  The pattern text is data read from the analysed tree;
+    only the stdlib `re` engine runs."""
+    rx = re.compile(pattern)
+    fn = getattr(rx, method)
+    accepted: Dict[str, List[str]] = {}
+    for haz, chars in PROBE_CHARS.items():
+        for c in chars:
+            for s in (c, 'a' + c, c + 'a', 'a' + c + 'a', 'a' + c + c, 'a1_' + c):
+                if fn(s):
+                    accepted.setdefault(haz, []).append(s)
+    return bool(fn('a')) and bool(fn('field_1')), accepted
+
+
+class TemplateText:
+    """Reads, from the router's own code, where each piece of text that the
+    generator hands to a construct comes from and which characters it can
+    contain.
+
+    Sources (each read off the analysed code, not assumed):
+    * the groups of the field-expression pattern: a group is *validated* when
+      `_validate_template_segment` passes it to <compiled regex constant>.match/
+      fullmatch and raises on a falsy result (obligation V1 probes that regex),
+      or tests it for membership in the converter map (V2); any other group
+      (argstr) is raw text;
+    * CompiledRouterNode attributes, from the stores in its constructor:
+      group values, tuples of group values, the segment itself, a compiled
+      pattern built from the segment;
+    * text outside field expressions: free of whitespace iff add_route rejects
+      whitespace after substituting the field expressions (V3)."""
+
+    def __init__(self, project: Project, model: 'CxModel', cfg_of):
+        self.p = project
+        self.model = model
+        self.mod = project.module(MODULE)
+        self.cfg_of = cfg_of
+        self.node_init = project.func(NODE + '.__init__')
+        self.validator = project.func(ROUTER + '._validate_template_segment')
+        self.add_route = project.func(ROUTER + '.add_route')
+        self.field_const, self.field_src = self._field_pattern()
+        try:
+            self.groupindex = dict(re.compile(self.field_src).groupindex)
+        except re.error as e:
+            raise UnknownIdiom('%s does not compile: %s' % (self.field_const, e))
+        self.group_names = {v: k for k, v in self.groupindex.items()}
+        self._unguarded: Set[int] = set()
+        self.validators = self._read_validator()      # group -> ('regex', const, pattern, method, call) | ('member', attr, test)
+        self._ws = None
+        self.node_attrs = self._read_node_init()      # attr -> ('group', g) | ('groups', [g]) | ('seg',) | ('regex', Txt|None) | ('raw',)
+
+    # ------------------------------------------------------------ constants
+    def regex_const(self, name: str) -> Optional[str]:
+        v = self.mod.consts.get(name)
+        if isinstance(v, ast.Call) and len(v.args) == 1 and not v.keywords:
+            fn = v.func
+            if (isinstance(fn, ast.Attribute) and fn.attr == 'compile' and isinstance(fn.value, ast.Name) and fn.value.id == 're') \
+                    or (isinstance(fn, ast.Name) and fn.id == 'compile'):
+                s = self.p.fold(self.mod, v.args[0], None, None)
+                if isinstance(s, str):
+                    return s
+        return None
+
+    def _field_pattern(self) -> Tuple[str, str]:
+        names = set()
+        for n in walk_self(self.node_init.node):
+            if isinstance(n, ast.Call) and isinstance(n.func, ast.Attribute) and n.func.attr in ('finditer', 'findall') \
+                    and isinstance(n.func.value, ast.Name) and self.regex_const(n.func.value.id) is not None:
+                names.add(n.func.value.id)
+        if len(names) != 1:
+            raise AnchorError('%s: the compiled field-expression pattern (<CONST>.finditer(segment)) was not found' % self.node_init.qual)
+        name = names.pop()
+        return name, self.regex_const(name)
+
+    # ------------------------------------------------------------ validator
+    @staticmethod
+    def _group_of(v) -> Optional[str]:
+        """g for `<m>.group('g')`."""
+        if isinstance(v, ast.Call) and isinstance(v.func, ast.Attribute) and v.func.attr == 'group' and len(v.args) == 1 \
+                and isinstance(v.args[0], ast.Constant) and isinstance(v.args[0].value, str) and not v.keywords:
+            return v.args[0].value
+        return None
+
+    def _groups_reaching(self, rd: ReachingDefs, nid: int, e) -> Optional[Set[str]]:
+        if self._group_of(e) is not None:
+            return {self._group_of(e)}
+        if not isinstance(e, ast.Name):
+            return None
+        out = set()
+        for d in rd.at(nid, e.id):
+            g = self._group_of(rd.def_value(d, e.id)) if d != ENTRY_DEF else None
+            if g is None:
+                return None
+            out.add(g)
+        return out or None
+
+    def _raising_guard(self, f: Func, falsy: Set[int], names: Set[str]) -> Optional[ast.If]:
+        """An `if` that raises when the AST nodes `falsy` / locals `names`
+        are falsy: its test is then true and its body ends in a raise, or its
+        test is then false and its else-branch ends in a raise."""
+        def hook(e, env):
+            return None if id(e) in falsy else NotImplemented
+        ev = Evaluator(f.qual, call_hook=hook)
+        for n in walk_self(f.node):
+            if isinstance(n, ast.If):
+                if not any(id(x) in falsy or (isinstance(x, ast.Name) and x.id in names) for x in ast.walk(n.test)):
+                    continue
+                v = ev.ev(n.test, {nm: None for nm in names})
+                if v is UNK:
+                    continue
+                branch = n.body if _truth(v) else n.orelse
+                if branch and isinstance(branch[-1], ast.Raise):
+                    return n
+        return None
+
+    def _tested_somewhere(self, f: Func, ids: Set[int], names: Set[str]) -> Optional[str]:
+        """Text of a test / boolean context that looks at the given call or locals."""
+        def hit(e):
+            return any(id(x) in ids or (isinstance(x, ast.Name) and x.id in names and isinstance(x.ctx, ast.Load)) for x in ast.walk(e))
+        for n in walk_self(f.node):
+            if isinstance(n, (ast.If, ast.While, ast.IfExp)) and hit(n.test):
+                return short(n.test, 60)
+            if isinstance(n, ast.Assert) and hit(n.test):
+                return 'assert ' + short(n.test, 60)
+            if isinstance(n, ast.BoolOp) and hit(n):
+                return short(n, 60)
+            if isinstance(n, (ast.Return, ast.Raise)) and getattr(n, 'value', None) is not None and hit(n.value):
+                return short(n, 60)
+        return None
+
+    def _read_validator(self) -> Dict[str, tuple]:
+        f = self.validator
+        cfg = self.cfg_of(f, self.p)
+        rd = ReachingDefs(cfg)
+        out: Dict[str, tuple] = {}
+        for n in cfg.live_nodes():
+            if n.copy:
+                continue
+            for c in n.calls():
+                if isinstance(c.func, ast.Attribute) and c.func.attr in ('match', 'fullmatch', 'search') and isinstance(c.func.value, ast.Name) \
+                        and self.regex_const(c.func.value.id) is not None and len(c.args) == 1 and not c.keywords:
+                    groups = self._groups_reaching(rd, n.id, c.args[0])
+                    if not groups or len(groups) != 1:
+                        continue
+                    names = set()
+                    if n.kind == 'stmt' and isinstance(n.ast, (ast.Assign, ast.AnnAssign)) and n.ast.value is c:
+                        names = set(node_defs(n))
+                    guard = self._raising_guard(f, {id(c)}, names)
+                    if guard is not None:
+                        out.setdefault(next(iter(groups)), ('regex', c.func.value.id, self.regex_const(c.func.value.id), c.func.attr, c))
+                    else:
+                        odd = self._tested_somewhere(f, {id(c)}, names)
+                        if odd is not None:
+                            raise UnknownIdiom('%s: the result of %s is examined by `%s`, which is not an if-statement that raises when '
+                                               'the match fails' % (f.qual, short(c, 50), odd))
+                        self._unguarded.add(id(c))   # the match result is never looked at: not a validation
+            # membership in the converter map:  if <group> not in self.<map>: raise
+            if n.kind == 'test':
+                for cmp_ in [x for x in ast.walk(n.ast) if isinstance(x, ast.Compare)]:
+                    if len(cmp_.ops) == 1 and isinstance(cmp_.ops[0], ast.NotIn) and isinstance(cmp_.comparators[0], ast.Attribute) \
+                            and isinstance(cmp_.comparators[0].value, ast.Name) and cmp_.comparators[0].value.id == 'self':
+                        groups = self._groups_reaching(rd, n.id, cmp_.left)
+                        st = n.stmt
+                        if groups and len(groups) == 1 and isinstance(st, ast.If) and st.test is n.ast and cmp_ is st.test \
+                                and st.body and isinstance(st.body[-1], ast.Raise):
+                            out.setdefault(next(iter(groups)), ('member', cmp_.comparators[0].attr, cmp_))
+        return out
+
+    def unrecognised_validation(self, g: str) -> Optional[str]:
+        """A use of group g inside the validator that might be a validation
+        of a shape this rule does not read (so that 'not validated' is not
+        concluded from it)."""
+        f = self.validator
+        bound = set()
+        for n in walk_self(f.node):
+            if isinstance(n, ast.Assign) and self._group_of(n.value) == g:
+                for t in n.targets:
+                    bound.update(_target_names(t))
+
+        def is_g(e):
+            return self._group_of(e) == g or (isinstance(e, ast.Name) and e.id in bound)
+
+        for n in walk_self(f.node):
+            if isinstance(n, ast.Call):
+                fn = n.func
+                t = self.p.callee(f, n)
+                if isinstance(t, Func) and t.qual in VALIDATION_LOOKALIKES and any(
+                        isinstance(x, ast.Call) and isinstance(x.func, ast.Name) and x.func.id == 'eval' for x in walk_self(t.node)):
+                    continue
+                if id(n) in self._unguarded:
+                    continue
+                if isinstance(fn, ast.Attribute) and is_g(fn.value) and fn.attr not in ('format',):
+                    return short(n, 60)
+                if any(is_g(a) for a in n.args) and not (isinstance(fn, ast.Attribute) and fn.attr in ('format', 'add', 'append', 'group')):
+                    return short(n, 60)
+        return None
+
+    def group_txt(self, g) -> Txt:
+        if isinstance(g, int):
+            g = self.group_names.get(g, g)
+        if g == 0 or isinstance(g, int):
+            return Txt(RAW_HAZARDS, ('group %s of the field expression (unvalidated text of the template)' % g,))
+        v = self.validators.get(g)
+        if v is None:
+            odd = self.unrecognised_validation(g)
+            if odd is not None:
+                raise UnknownIdiom('%s: group %r of the field expression is examined by %s; this rule reads validation only as '
+                                   '<compiled regex>.match/fullmatch(...) or membership in a router table, followed by a raise'
+                                   % (self.validator.qual, g, odd))
+            return Txt(RAW_HAZARDS, ('group %r of the field expression, copied verbatim from the URI template '
+                                     '(no validation: it may contain line breaks and quotes)' % g,))
+        if v[0] == 'regex':
+            return Txt((), ('group %r of the field expression, validated by %s.%s()' % (g, v[1], v[3]),), deps=['regex:' + g])
+        return Txt((), ('group %r of the field expression, required to be a key of self.%s' % (g, v[1]),), deps=['member:' + g])
+
+    # ------------------------------------------------------------ whitespace outside field expressions
+    def _segment_vars(self) -> Set[str]:
+        """Loop variables of add_route that run over the '/'-separated pieces of the template parameter."""
+        f = self.add_route
+
+        def is_split(v) -> bool:
+            if not (isinstance(v, ast.Call) and isinstance(v.func, ast.Attribute) and v.func.attr == 'split' and len(v.args) == 1
+                    and isinstance(v.args[0], ast.Constant) and v.args[0].value == '/'):
+                return False
+            root = v.func.value
+            while isinstance(root, (ast.Call, ast.Attribute)):
+                root = root.func if isinstance(root, ast.Call) else root.value
+            return isinstance(root, ast.Name) and root.id in f.params()
+
+        split_locals = set()
+        for n in walk_self(f.node):
+            if isinstance(n, (ast.Assign, ast.AnnAssign)) and n.value is not None and is_split(n.value):
+                for t in (n.targets if isinstance(n, ast.Assign) else [n.target]):
+                    if isinstance(t, ast.Name):
+                        split_locals.add(t.id)
+        out = set()
+        for n in walk_self(f.node):
+            if isinstance(n, ast.For) and isinstance(n.target, ast.Name) and (
+                    is_split(n.iter) or (isinstance(n.iter, ast.Name) and n.iter.id in split_locals)):
+                out.add(n.target.id)
+        return out
+
+    def _piece_kind(self, f: Func, name: str) -> Optional[str]:
+        """'template' (the whole URI template) / 'segment' (one '/'-separated piece) / None."""
+        if f is self.add_route:
+            if name in self._segment_vars():
+                return 'segment'
+            if name in f.params() and name != 'self':
+                return 'template'
+            return None
+        if f is self.validator:
+            # the validator's parameter that add_route feeds with a segment
+            names = [x for x in f.params() if x not in ('self', 'cls')]
+            for c in walk_self(self.add_route.node):
+                if isinstance(c, ast.Call) and self.p.callee(self.add_route, c) is f and not c.keywords:
+                    for prm, a in zip(names, c.args):
+                        if prm == name and isinstance(a, ast.Name) and a.id in self._segment_vars():
+                            return 'segment'
+        return None
+
+    def field_spans_slash(self) -> Optional[str]:
+        """A sample showing that one field expression can contain '/', else None."""
+        rx = re.compile(self.field_src)
+        for s in ('{a:b(c/d)}', '{a:b/c}', '{a/b}'):
+            m = rx.search(s)
+            if m and '/' in m.group(0):
+                return s
+        return None
+
+    def ws_check(self):
+        """(status, function, if-node, note): status 'proved' | 'spans' |
+        'absent'; UnknownIdiom for an unreadable shape.  A check is a test
+        `re.search(<P>, <FIELD>.sub(<C>, X))` guarding a raise, P matching line
+        breaks.  It proves "a segment's text outside its own field expressions
+        has no whitespace" when X is a segment, or when X is the whole template
+        and a field expression cannot contain '/' (otherwise the split cuts the
+        field and its whitespace becomes literal text of a segment)."""
+        if self._ws is not None:
+            return self._ws
+        cands = []
+        for f in (self.add_route, self.validator):
+            subs = [c for c in walk_self(f.node) if isinstance(c, ast.Call) and isinstance(c.func, ast.Attribute) and c.func.attr == 'sub'
+                    and isinstance(c.func.value, ast.Name) and c.func.value.id == self.field_const]
+            used = set()
+            for n in walk_self(f.node):
+                if not (isinstance(n, ast.If) and n.body and isinstance(n.body[-1], ast.Raise)):
+                    continue
+                inside = [c for c in subs if any(x is c for x in ast.walk(n.test))]
+                if not inside:
+                    continue
+                used.update(id(c) for c in inside)
+                t = n.test
+                kind = None
+                if isinstance(t, ast.Call) and isinstance(t.func, ast.Attribute) and t.func.attr == 'search' and len(t.args) == 2 \
+                        and t.args[1] is inside[0] and len(inside[0].args) == 2 and isinstance(inside[0].args[1], ast.Name):
+                    pat = self.p.fold(self.mod, t.args[0], None, f)
+                    repl = self.p.fold(self.mod, inside[0].args[0], None, f)
+                    if isinstance(pat, str) and isinstance(repl, str):
+                        try:
+                            rx = re.compile(pat)
+                        except re.error:
+                            rx = None
+                        if rx is not None and all(rx.search('a' + c + 'b') for c in '\n\r') and not rx.search(replacement_parts(repl)[0]):
+                            kind = self._piece_kind(f, inside[0].args[1].id)
+                if kind is None:
+                    raise UnknownIdiom('%s: the test `%s` looks at template text with its field expressions substituted; this rule reads the '
+                                       'whitespace check only as re.search(<pattern matching line breaks>, %s.sub(<constant>, <template or '
+                                       'segment>))' % (f.qual, short(t, 80), self.field_const))
+                cands.append((kind, f, n))
+            if any(id(c) not in used for c in subs):
+                raise UnknownIdiom('%s: %s.sub(...) is used outside a raising test; whitespace check not understood' % (f.qual, self.field_const))
+        seg = [c for c in cands if c[0] == 'segment']
+        tpl = [c for c in cands if c[0] == 'template']
+        if seg:
+            res = ('proved', seg[0][1], seg[0][2], 'each segment is checked')
+        elif tpl:
+            span = self.field_spans_slash()
+            if span is None:
+                res = ('proved', tpl[0][1], tpl[0][2], 'the whole template is checked and a field expression cannot contain "/"')
+            else:
+                res = ('spans', tpl[0][1], tpl[0][2], 'the whole template is checked, but %s matches %r: a field expression may span "/", the '
+                       'split cuts it and the whitespace inside it becomes literal text of a segment' % (self.field_const, span))
+        else:
+            res = ('absent', self.add_route, None, 'no whitespace check on template text with its field expressions substituted')
+        self._ws = res
+        return res
+
+    def outside_txt(self) -> Txt:
+        return Txt([QUOTE, PUNCT], ('template text outside field expressions (any non-whitespace character)',), deps=['ws'])
+
+    def seg_flat(self, s: Seg) -> Txt:
+        return Txt(RAW_HAZARDS, ('%s: its field expressions are copied verbatim and may contain line breaks / quotes' % s.note,))
+
+    # ------------------------------------------------------------ CompiledRouterNode.__init__
+    def _read_node_init(self) -> Dict[str, tuple]:
+        f = self.node_init
+        cfg = self.cfg_of(f, self.p)
+        rd = ReachingDefs(cfg)
+        params = f.params()[1:]
+        found: Dict[str, List[tuple]] = {}
+
+        def harmless(v) -> bool:
+            return (isinstance(v, ast.Constant) and not isinstance(v.value, str)) or (isinstance(v, (ast.List, ast.Dict, ast.Tuple, ast.Set))
+                                                                                      and not getattr(v, 'elts', getattr(v, 'keys', None)))
+
+        def seg_eval(e, nid, depth=0):
+            """Seg | Txt | None"""
+            if depth > 10:
+                return None
+            if isinstance(e, ast.Constant) and isinstance(e.value, str):
+                return const_txt(e.value)
+            if isinstance(e, ast.Name):
+                vals = []
+                for d in rd.at(nid, e.id):
+                    if d == ENTRY_DEF:
+                        if e.id in params and found.get('$segment_param') == e.id:
+                            vals.append(Seg('the template segment'))
+                        else:
+                            return None
+                    else:
+                        v = rd.def_value(d, e.id)
+                        if v is None:
+                            return None
+                        vals.append(seg_eval(v, d, depth + 1))
+                if not vals or any(v is None for v in vals):
+                    return None
+                if all(isinstance(v, Seg) for v in vals):
+                    return vals[0]
+                return join_txt([self.seg_flat(v) if isinstance(v, Seg) else v for v in vals])
+            if isinstance(e, ast.BinOp) and isinstance(e.op, ast.Add):
+                l, r = seg_eval(e.left, nid, depth + 1), seg_eval(e.right, nid, depth + 1)
+                if l is None or r is None:
+                    return None
+                return join_txt([self.seg_flat(v) if isinstance(v, Seg) else v for v in (l, r)])
+            if isinstance(e, ast.Call) and isinstance(e.func, ast.Attribute) and e.func.attr == 'sub' and not e.keywords:
+                recv = e.func.value
+                if isinstance(recv, ast.Name) and recv.id == 're' and len(e.args) == 3:
+                    pat, repl, x = self.p.fold(self.mod, e.args[0], None, f), self.p.fold(self.mod, e.args[1], None, f), e.args[2]
+                    field = False
+                elif isinstance(recv, ast.Name) and self.regex_const(recv.id) is not None and len(e.args) == 2:
+                    pat, repl, x = self.regex_const(recv.id), self.p.fold(self.mod, e.args[0], None, f), e.args[1]
+                    field = recv.id == self.field_const
+                else:
+                    return None
+                if not isinstance(pat, str) or not isinstance(repl, str):
+                    return None
+                try:
+                    lit, refs = replacement_parts(repl)
+                except ValueError:
+                    return None
+                xv = seg_eval(x, nid, depth + 1)
+                if xv is None:
+                    return None
+                if field:
+                    # every field expression is replaced by constant text + the referenced groups
+                    parts = [const_txt(lit, 'replacement text')] + [self.group_txt(g) for g in refs]
+                    parts.append(self.outside_txt() if isinstance(xv, Seg) else xv)
+                    return join_txt(parts)
+                if isinstance(xv, Seg):
+                    # character-level escaping keeps the segment structure if it neither matches nor inserts
+                    # the delimiters of a field expression
+                    if any(c in pat for c in '{}:') or any(c in lit for c in '{}:(\n\r') or any(g != 0 for g in refs):
+                        return self.seg_flat(xv) | const_txt(lit, 'replacement text')
+                    return Seg(xv.note + ' (escaped)')
+                return xv | const_txt(lit, 'replacement text')
+            return None
+
+        # the parameter that is the segment: the one stored as self.raw_segment-like attribute AND searched for field expressions
+        for n in walk_self(f.node):
+            if isinstance(n, ast.Call) and isinstance(n.func, ast.Attribute) and n.func.attr in ('finditer', 'findall') \
+                    and isinstance(n.func.value, ast.Name) and n.func.value.id == self.field_const and len(n.args) == 1 \
+                    and isinstance(n.args[0], ast.Name) and n.args[0].id in params:
+                found['$segment_param'] = n.args[0].id
+        if '$segment_param' not in found:
+            raise UnknownIdiom('%s: the parameter searched for field expressions was not identified' % f.qual)
+        seg_param = found['$segment_param']
+
+        for n in cfg.live_nodes():
+            if n.copy or n.kind != 'stmt':
+                continue
+            a = n.ast
+            if isinstance(a, (ast.Assign, ast.AnnAssign)) and a.value is not None:
+                for t in (a.targets if isinstance(a, ast.Assign) else [a.target]):
+                    if not (isinstance(t, ast.Attribute) and isinstance(t.value, ast.Name) and t.value.id == 'self'):
+                        continue
+                    v = a.value
+                    if harmless(v):
+                        continue
+                    if isinstance(v, ast.Name) and v.id == seg_param:
+                        found.setdefault(t.attr, []).append(('seg',))
+                    elif isinstance(v, ast.Name) and v.id in params:
+                        found.setdefault(t.attr, []).append(('param', v.id))
+                    elif self._group_of(v) is not None:
+                        found.setdefault(t.attr, []).append(('group', self._group_of(v)))
+                    elif isinstance(v, ast.Call) and isinstance(v.func, ast.Attribute) and v.func.attr == 'compile' \
+                            and isinstance(v.func.value, ast.Name) and v.func.value.id == 're' and len(v.args) == 1 and not v.keywords:
+                        r = seg_eval(v.args[0], n.id)
+                        found.setdefault(t.attr, []).append(('regex', self.seg_flat(r) if isinstance(r, Seg) else r))
+                    elif isinstance(v, ast.Call) and isinstance(v.func, ast.Name) and v.func.id in ('len', 'bool', 'int'):
+                        continue
+                    else:
+                        found.setdefault(t.attr, []).append(('unknown', short(v, 60)))
+            elif isinstance(a, ast.Expr) and isinstance(a.value, ast.Call) and isinstance(a.value.func, ast.Attribute) \
+                    and a.value.func.attr in ('append', 'insert', 'extend', 'add') and isinstance(a.value.func.value, ast.Attribute) \
+                    and isinstance(a.value.func.value.value, ast.Name) and a.value.func.value.value.id == 'self':
+                attr = a.value.func.value.attr
+                c = a.value
+                if a.value.func.attr == 'append' and len(c.args) == 1 and isinstance(c.args[0], ast.Tuple) \
+                        and all(self._group_of(x) is not None for x in c.args[0].elts):
+                    found.setdefault(attr, []).append(('groups', tuple(self._group_of(x) for x in c.args[0].elts)))
+                else:
+                    found.setdefault(attr, []).append(('unknown', short(c, 60)))
+        out: Dict[str, tuple] = {}
+        for attr, vals in found.items():
+            if attr.startswith('$'):
+                continue
+            kinds = set(vals)
+            out[attr] = vals[0] if len(kinds) == 1 else ('unknown', 'assigned in several ways: %s' % sorted(str(k[0]) for k in kinds))
+        return out
+
+    def node_attr_txt(self, attr: str, sub: Optional[str] = None):
+        """Txt | Seg | None for `<node>.<attr>` (sub='pattern' for `<node>.<attr>.pattern`)."""
+        k = self.node_attrs.get(attr)
+        if k is None:
+            return None
+        if sub is not None:
+            if k[0] == 'regex' and sub == 'pattern' and k[1] is not None:
+                return Txt(k[1].haz, ('the source text of the compiled pattern %s' % attr,) + k[1].notes, k[1].deps)
+            return None
+        if k[0] == 'group':
+            return self.group_txt(k[1])
+        if k[0] == 'seg':
+            return Seg('the template segment (%s)' % attr)
+        return None
+
+    # ------------------------------------------------------------ origin of a value inside a generator function
+    def _is_int_param(self, f: Func, name: str) -> bool:
+        a = f.node.args
+        for x in a.posonlyargs + a.args + a.kwonlyargs:
+            if x.arg == name and x.annotation is not None and ast.unparse(x.annotation) == 'int':
+                return True
+        return False
+
+    def _bindings(self, f: Func, name: str, env, depth) -> Optional[List[Optional[Txt]]]:
+        """One entry per binding of local `name` in f (None = not understood)."""
+        out: List[Optional[Txt]] = []
+
+        def tuple_pos(target, value_groups_of):
+            names = [e.id if isinstance(e, ast.Name) else None for e in target.elts]
+            if name not in names:
+                return
+            k = names.index(name)
+            groups = value_groups_of
+            out.append(self.group_txt(groups[k]) if groups is not None and k < len(groups) and len(groups) == len(names) else None)
+
+        def groups_attr(e) -> Optional[tuple]:
+            """groups of the tuples stored in `<x>.<attr>` when e denotes one element of it / the list itself"""
+            if isinstance(e, ast.Attribute) and self.node_attrs.get(e.attr, ('',))[0] == 'groups':
+                return self.node_attrs[e.attr][1]
+            return None
+
+        for n in walk_self(f.node):
+            if isinstance(n, (ast.Assign, ast.AnnAssign)) and n.value is not None:
+                for t in (n.targets if isinstance(n, ast.Assign) else [n.target]):
+                    if isinstance(t, ast.Name) and t.id == name:
+                        out.append(self.origin(f, n.value, env, depth + 1))
+                    elif isinstance(t, (ast.Tuple, ast.List)) and name in _target_names(t):
+                        v = n.value
+                        if isinstance(v, ast.Subscript) and not isinstance(v.slice, ast.Slice) and groups_attr(v.value) is not None:
+                            tuple_pos(t, groups_attr(v.value))
+                        elif isinstance(v, (ast.Tuple, ast.List)) and len(v.elts) == len(t.elts) and all(isinstance(e, ast.Name) for e in t.elts):
+                            k = [e.id for e in t.elts].index(name)
+                            out.append(self.origin(f, v.elts[k], env, depth + 1))
+                        else:
+                            out.append(None)
+            elif isinstance(n, ast.AugAssign) and name in _target_names(n.target):
+                out.append(None)
+            elif isinstance(n, (ast.For, ast.AsyncFor)) and name in _target_names(n.target):
+                if isinstance(n.target, (ast.Tuple, ast.List)) and groups_attr(n.iter) is not None:
+                    tuple_pos(n.target, groups_attr(n.iter))
+                else:
+                    out.append(None)
+            elif isinstance(n, ast.NamedExpr) and isinstance(n.target, ast.Name) and n.target.id == name:
+                out.append(None)
+            elif isinstance(n, ast.comprehension) and name in _target_names(n.target):
+                out.append(None)
+        return out
+
+    def ctor_arg(self, cx: 'CxClass', call: ast.Call, i: int):
+        """(expression bound to constructor parameter i at `call`, function in whose scope it is written)"""
+        if any(isinstance(a, ast.Starred) for a in call.args) or any(k.arg is None for k in call.keywords):
+            raise UnknownIdiom('construction %s' % short(call, 80))
+        if i < len(call.args):
+            return call.args[i], None
+        if i < len(cx.params):
+            for k in call.keywords:
+                if k.arg == cx.params[i]:
+                    return k.value, None
+            init = self.p.lookup_method(cx.qual, '__init__')
+            a = init.node.args
+            pos = a.posonlyargs + a.args
+            j = i + 1 - (len(pos) - len(a.defaults))
+            if 0 <= j < len(a.defaults):
+                return a.defaults[j], init
+        raise UnknownIdiom('construction %s: no argument for parameter %d of %s' % (short(call, 80), i, cx.name))
+
+    def cx_attr_txt(self, cx: 'CxClass', attr: str, f: Func, call: ast.Call, env=None, depth=0) -> Optional[Txt]:
+        """What `self.<attr>` of the construct created by `call` (in f) renders as."""
+        src = cx.attr_src.get(attr)
+        if src is None:
+            return None
+        if src[0] == 'const':
+            return const_txt(src[1])
+        if src[0] == 'param':
+            e, scope = self.ctor_arg(cx, call, src[1])
+            return self.origin(scope or f, e, env if scope is None else None, depth + 1)
+        if src[0] == 'name':
+            try:
+                lits = [lit for (lit, _f, _s, _c) in string.Formatter().parse(src[1])]
+            except ValueError:
+                return None
+            parts = [const_txt(''.join(lits))]
+            for i in src[2]:
+                e, scope = self.ctor_arg(cx, call, i)
+                parts.append(self.origin(scope or f, e, env if scope is None else None, depth + 1))
+            t = join_txt(parts)
+            return None if t is None else Txt(t.haz, ('a generated name %r' % src[1],) + t.notes if not t.haz else t.notes, t.deps)
+        return None
+
+    def _format_txt(self, f: Func, tmpl: str, args, kw, env, depth) -> Optional[Txt]:
+        try:
+            parsed = list(string.Formatter().parse(tmpl))
+        except ValueError:
+            return None
+        parts = [const_txt(''.join(lit for (lit, _f, _s, _c) in parsed))]
+        auto = 0
+        for (_lit, field, spec, conv) in parsed:
+            if field is None:
+                continue
+            if spec:
+                return None
+            if field == '':
+                idx = auto
+                auto += 1
+            elif field.isdigit():
+                idx = int(field)
+            else:
+                return None
+            if idx >= len(args):
+                return None
+            parts.append(REPR_TXT if conv in ('r', 'a') else self.origin(f, args[idx], env, depth + 1))
+        return join_txt(parts)
+
+    def origin(self, f: Func, e, env=None, depth=0) -> Optional[Txt]:
+        """Upper bound on the text `e` (an expression of f) renders as; None = not understood."""
+        if depth > 12:
+            return None
+        if isinstance(e, ast.Constant):
+            if isinstance(e.value, str):
+                return const_txt(e.value)
+            if isinstance(e.value, (int, bool)):
+                return INT_TXT
+            if e.value is None:
+                return Txt()
+            return None
+        if isinstance(e, ast.Name):
+            if env is not None and e.id in env:
+                return env[e.id]
+            if e.id in f.params():
+                rebound = any(isinstance(n, ast.Name) and n.id == e.id and isinstance(n.ctx, ast.Store) for n in walk_self(f.node))
+                if self._is_int_param(f, e.id) and not rebound:
+                    return INT_TXT
+                return None
+            b = self._bindings(f, e.id, env, depth)
+            if not b:
+                v = self.p.fold(f.module, e, None, f)
+                if isinstance(v, str):
+                    return const_txt(v)
+                if isinstance(v, int):
+                    return INT_TXT
+                return None
+            if any(x is None for x in b):
+                return None
+            if all(x.is_int for x in b):
+                return INT_TXT
+            return join_txt(b)
+        if isinstance(e, ast.BinOp):
+            if isinstance(e.op, ast.Mod) and isinstance(e.left, ast.Constant) and isinstance(e.left.value, str):
+                args = e.right.elts if isinstance(e.right, ast.Tuple) else [e.right]
+                return join_txt([const_txt(e.left.value)] + [self.origin(f, a, env, depth + 1) for a in args])
+            l, r = self.origin(f, e.left, env, depth + 1), self.origin(f, e.right, env, depth + 1)
+            if l is None or r is None:
+                return None
+            if l.is_int and r.is_int and isinstance(e.op, (ast.Add, ast.Sub, ast.Mult, ast.FloorDiv, ast.Mod)):
+                return INT_TXT
+            if isinstance(e.op, (ast.Add, ast.Mult)):
+                return l | r
+            return None
+        if isinstance(e, ast.IfExp):
+            return join_txt([self.origin(f, e.body, env, depth + 1), self.origin(f, e.orelse, env, depth + 1)])
+        if isinstance(e, ast.JoinedStr):
+            parts = []
+            for part in e.values:
+                if isinstance(part, ast.Constant) and isinstance(part.value, str):
+                    parts.append(const_txt(part.value))
+                elif isinstance(part, ast.FormattedValue) and part.format_spec is None:
+                    parts.append(REPR_TXT if part.conversion in (ord('r'), ord('a')) else self.origin(f, part.value, env, depth + 1))
+                else:
+                    return None
+            return join_txt(parts)
+        if isinstance(e, ast.Subscript):
+            if isinstance(e.slice, ast.Slice):
+                return self.origin(f, e.value, env, depth + 1)    # a substring
+            v = e.value
+            if isinstance(v, ast.Subscript) and isinstance(v.value, ast.Attribute) and self.node_attrs.get(v.value.attr, ('',))[0] == 'groups' \
+                    and isinstance(e.slice, ast.Constant) and type(e.slice.value) is int:
+                groups = self.node_attrs[v.value.attr][1]
+                if 0 <= e.slice.value < len(groups):
+                    return self.group_txt(groups[e.slice.value])
+            return None
+        if isinstance(e, ast.Attribute):
+            if isinstance(e.value, ast.Attribute) and e.value.attr in self.node_attrs:
+                t = self.node_attr_txt(e.value.attr, sub=e.attr)
+                return t
+            if isinstance(e.value, ast.Name):
+                # a construct created here: its generated-name attribute
+                b = []
+                for n in walk_self(f.node):
+                    if isinstance(n, (ast.Assign, ast.AnnAssign)) and n.value is not None:
+                        for t_ in (n.targets if isinstance(n, ast.Assign) else [n.target]):
+                            if e.value.id in _target_names(t_):
+                                b.append(n.value if isinstance(t_, ast.Name) else None)
+                cxs = [self.model.of(self.p.callee(f, v)) if isinstance(v, ast.Call) else None for v in b]
+                if b and all(c is not None for c in cxs) and e.value.id not in f.params():
+                    return join_txt([self.cx_attr_txt(c, e.attr, f, v, env, depth + 1) for c, v in zip(cxs, b)])
+            if e.attr in self.node_attrs:
+                t = self.node_attr_txt(e.attr)
+                return self.seg_flat(t) if isinstance(t, Seg) else t
+            return None
+        if isinstance(e, ast.Call):
+            fn = e.func
+            if isinstance(fn, ast.Attribute) and fn.attr == 'format' and not e.keywords and not any(isinstance(a, ast.Starred) for a in e.args):
+                tmpl = self.p.fold(f.module, fn.value, None, f)
+                if isinstance(tmpl, str):
+                    return self._format_txt(f, tmpl, e.args, {}, env, depth)
+                return None
+            t = self.p.resolve_callable(f, fn) if isinstance(fn, (ast.Name, ast.Attribute)) else None
+            if t in ('builtins.len', 'builtins.int', 'builtins.hash', 'builtins.id', 'builtins.ord'):
+                return INT_TXT
+            if t == 'builtins.repr':
+                return REPR_TXT
+            if t == 'builtins.str' and len(e.args) == 1 and not e.keywords:
+                return self.origin(f, e.args[0], env, depth + 1)
+            if isinstance(t, Func) and not t.is_async:
+                return self._helper_txt(f, e, t, env, depth)
+            return None
+        return None
+
+    def _helper_txt(self, f: Func, call: ast.Call, t: Func, env, depth) -> Optional[Txt]:
+        """Join over the return expressions of helper t with its parameters
+        bound to the argument texts."""
+        if any(isinstance(a, ast.Starred) for a in call.args) or any(k.arg is None for k in call.keywords):
+            return None
+        a = t.node.args
+        if a.vararg or a.kwarg:
+            return None
+        names = [x.arg for x in a.posonlyargs + a.args]
+        if t.cls is not None and isinstance(call.func, ast.Attribute) and names and names[0] in ('self', 'cls'):
+            names = names[1:]
+        if len(call.args) > len(names):
+            return None
+        env2: Dict[str, Optional[Txt]] = {}
+        for nm, arg in zip(names, call.args):
+            env2[nm] = self.origin(f, arg, env, depth + 1)
+        for k in call.keywords:
+            env2[k.arg] = self.origin(f, k.value, env, depth + 1)
+        defaults = dict(zip(names[len(names) - len(a.defaults):], a.defaults)) if a.defaults else {}
+        for nm in names:
+            if nm not in env2:
+                if nm not in defaults:
+                    return None
+                env2[nm] = self.origin(t, defaults[nm], None, depth + 1)
+        rebound = {n.id for n in walk_self(t.node) if isinstance(n, ast.Name) and isinstance(n.ctx, ast.Store)}
+        if rebound & set(env2):
+            return None
+        rets = [n.value for n in walk_self(t.node) if isinstance(n, ast.Return)]
+        if not rets or any(r is None for r in rets):
+            return None
+        # a parameter whose text is not understood only matters if a return uses it
+        parts = []
+        for r in rets:
+            used = {n.id for n in ast.walk(r) if isinstance(n, ast.Name)}
+            if any(env2.get(u, 0) is None for u in used):
+                return None
+            parts.append(self.origin(t, r, {k: v for k, v in env2.items() if v is not None}, depth + 1))
+        return join_txt(parts)
